@@ -1,22 +1,148 @@
 package main
 
 import (
+	"bufio"
 	"fmt"
+	"io"
 	"os"
+	"os/exec"
+	"strings"
+	"time"
 )
 
-// childFns: operations that may panic inside a goroutine of the real code (which kills the process)
-// are run in a child process: `owharness child <name> <args…>`; registered per family.
-var childFns = map[string]func(args []string){}
+// Worker child: `owharness child <FAMILY>` reads one case body per line on stdin, runs the family's Exec on the
+// real code and answers one line. A panic in a goroutine of the real code kills this child, not the generator.
 
 func childMain(args []string) {
 	if len(args) < 1 {
 		os.Exit(2)
 	}
-	f, ok := childFns[args[0]]
+	f, ok := families[args[0]]
 	if !ok {
-		fmt.Fprintln(os.Stderr, "unknown child fn", args[0])
+		fmt.Fprintln(os.Stderr, "unknown family", args[0])
 		os.Exit(2)
 	}
-	f(args[1:])
+	in := bufio.NewReaderSize(os.Stdin, 1<<20)
+	out := bufio.NewWriterSize(os.Stdout, 1<<20)
+	for {
+		line, err := in.ReadString('\n')
+		if len(line) > 0 {
+			res := safeExec(f.Exec, strings.TrimRight(line, "\n"))
+			out.WriteString(strings.ReplaceAll(res, "\n", " "))
+			out.WriteByte('\n')
+			out.Flush()
+		}
+		if err != nil {
+			return
+		}
+	}
+}
+
+// safeExec recovers panics of the calling goroutine (index out of range in array code etc.).
+func safeExec(f func(string) string, body string) (res string) {
+	defer func() {
+		if r := recover(); r != nil {
+			res = "panic " + panicClass(fmt.Sprint(r))
+		}
+	}()
+	return f(body)
+}
+
+func panicClass(msg string) string {
+	switch {
+	case strings.Contains(msg, "index out of range"), strings.Contains(msg, "slice bounds out of range"):
+		return "index-out-of-range"
+	case strings.Contains(msg, "nil pointer"), strings.Contains(msg, "invalid memory address"):
+		return "nil"
+	case strings.Contains(msg, "Size mismatch"):
+		return "size-mismatch"
+	case strings.Contains(msg, "not contiguous"):
+		return "not-contiguous"
+	case strings.Contains(msg, "interface conversion"):
+		return "type-assertion"
+	case strings.Contains(msg, "makeslice"), strings.Contains(msg, "out of memory"):
+		return "alloc"
+	case strings.Contains(msg, "divide by zero"):
+		return "int-div-zero"
+	}
+	return "other"
+}
+
+type worker struct {
+	fam  string
+	cmd  *exec.Cmd
+	in   io.WriteCloser
+	out  *bufio.Reader
+	errb *strings.Builder
+}
+
+func startWorker(fam string) *worker {
+	exe := os.Getenv("OW_HARNESS")
+	if exe == "" {
+		exe, _ = os.Executable()
+	}
+	cmd := exec.Command(exe, "child", fam)
+	cmd.Env = append(os.Environ(), "GOMEMLIMIT=2GiB", "GOTRACEBACK=single")
+	in, err := cmd.StdinPipe()
+	must(err)
+	outp, err := cmd.StdoutPipe()
+	must(err)
+	w := &worker{fam: fam, cmd: cmd, in: in, out: bufio.NewReaderSize(outp, 1<<20), errb: &strings.Builder{}}
+	cmd.Stderr = &limitedWriter{w.errb, 1 << 16}
+	must(cmd.Start())
+	return w
+}
+
+type limitedWriter struct {
+	b   *strings.Builder
+	max int
+}
+
+func (l *limitedWriter) Write(p []byte) (int, error) {
+	if l.b.Len() < l.max {
+		l.b.Write(p)
+	}
+	return len(p), nil
+}
+
+// call returns (result, true) or ("panic <class>", false) when the child died or timed out.
+func (w *worker) call(body string) (string, bool) {
+	type resp struct {
+		s   string
+		err error
+	}
+	ch := make(chan resp, 1)
+	go func() {
+		_, err := io.WriteString(w.in, body+"\n")
+		if err != nil {
+			ch <- resp{"", err}
+			return
+		}
+		s, err := w.out.ReadString('\n')
+		ch <- resp{s, err}
+	}()
+	select {
+	case r := <-ch:
+		if r.err != nil {
+			w.cmd.Process.Kill()
+			w.cmd.Wait()
+			return "panic " + panicClass(w.errb.String()), false
+		}
+		return strings.TrimRight(r.s, "\n"), true
+	case <-time.After(60 * time.Second):
+		w.cmd.Process.Kill()
+		w.cmd.Wait()
+		return "panic timeout", false
+	}
+}
+
+func (w *worker) close() {
+	w.in.Close()
+	done := make(chan struct{})
+	go func() { w.cmd.Wait(); close(done) }()
+	select {
+	case <-done:
+	case <-time.After(5 * time.Second):
+		w.cmd.Process.Kill()
+	}
 }
